@@ -157,3 +157,11 @@ Theorem C13_scan_takes_the_sources_decision : forall rec p n is_dir es stack to_
   end.
 Proof. exact scan_takes_the_sources_decision. Qed.
 Print Assumptions C13_scan_takes_the_sources_decision.
+
+(* ... and the recorded set [rec] the scan consults is what VersionIndex.get_all_versions() returns: one entry per row of the
+   index, none merged or dropped (the reader and the text of its query are compared with the expected ones on every run;
+   seeds C08/k and C11/l collected the rows in a dictionary keyed by the timestamp alone) *)
+Theorem C13_recorded_set_is_every_row :
+  gen_index_readers_return_one_entry_per_row = true /\ gen_sql_texts_are_the_transcribed_ones = true.
+Proof. split; reflexivity. Qed.
+Print Assumptions C13_recorded_set_is_every_row.
